@@ -213,6 +213,7 @@ def _expand_partial_output(partial, sl_map, output_unroll_info):
     -------
     yastn.Tensor  with full-sized blocks on the output-unrolled axes.
     """
+    partial = partial.consume_transpose()  # blocks below are addressed in native order
     if not partial.struct.t:
         return partial  # empty tensor: nothing to expand
 
